@@ -125,6 +125,7 @@ class SimService:
         self.send_faults = None
         self.on_poll = None
         self.on_send = None
+        self.ts_fn = None              # callable(poll index, sim now_ns) -> ts_nanos of the reply: the service's own clock
         self.issued[self.current_hash] = []
 
     # -- configuration by the scenario
@@ -158,7 +159,7 @@ class SimService:
                 r = self._apply_fault(k, act)
                 if r is not None:
                     return r
-            return self._poll_reply(req, now)
+            return self._poll_reply(req, now if self.ts_fn is None else self.ts_fn(idx, now))
         if method == SEND:
             snap = self.tp_pb2.Snapshot.FromString(data)
             idx = len(self.send_attempts)
